@@ -47,6 +47,17 @@ RULE = ('Parser level, both framing versions. (1) Mutation grammar over valid fr
         'the leftover holds exactly it, EVERY other request is failed with an exception object within 3 s (a synchronous call raises) - never left '
         'waiting -, nothing of the unfinished frame is called back, connected is False, the session thread has ended, the local close returned, at '
         'least one error was broadcast, a request made afterwards is refused / failed at once. '
+        '(l) scenario l (c14_hist.run_listener_script), who receives what AFTER the hello: a real UnixSocketSession.connect(path) to a scripted '
+        'server (capability exchange through HelloHandler), then a sequential history of: a SECOND <hello> in the negotiated framing with another '
+        'session-id / more / fewer / no capabilities / no session-id, application listeners added and removed (also twice / re-added), well-formed '
+        'messages, dropped non-XML frames, requests with valid replies (the first one registers the reply listener), a sentinel message, optionally '
+        'peer EOF; quick: every second-hello variant on the plain history connect -> hello2 -> observe -> request + 10 random add/remove histories. '
+        'Oracle: session.id / server_capabilities / framing base are those of the hello of the exchange whatever arrives later; listener k received '
+        'exactly the well-formed messages sent while it was registered, in order - nothing after remove_listener; requests hold their replies; at '
+        'the end registered listeners get the error once, removed ones nothing. '
+        'Every parser-level stream runs under a limit of 2 s of CPU time (harness/framing.py run_parser, SIGVTALRM): a parse() that does not '
+        'return is reported with that stream as the failing input (after 3 such streams the rest of the parser level is abandoned); zero-size '
+        'chunk headers (LF#0LF, LF#00LF, LF#000LF) at every position of real messages x whole / octet-by-octet / single cuts run first. '
         'Session clause on the extended session LTS (coq/Model/SessionSoft.v = SessionLTS + the non-fatal error broadcast of '
         'Session._dispatch_message + the malformed notification; runner LTSX): deterministic-scheduler runs of the real Session.run / RPC / '
         'listener threads - a sweep of every profile x every hostile text x both framings and of every malformed body behind a <notification> '
@@ -254,7 +265,11 @@ def evaluate_block(ctx, base, items, mfut, what_level):
     f = F()
     outs = mfut.result() if mfut is not None else [None] * len(items)
     for (segs, hk), mo in zip(items, outs):
+        if STUCK['n'] >= STUCK_MAX:
+            return                      # the parser level was abandoned (see run): every such stream costs PARSE_LIMIT_S of CPU
         recs = f.run_parser(base, segs)
+        if f.did_not_return(recs) is not None:
+            STUCK['n'] += 1
         key = '%d|%s' % (base, '|'.join(s.hex() for s in segs))
         ctx.count(None, nontrivial=any(segs), key=key)
         for k, v in hk.items(): ctx.hist(k, v)
@@ -271,6 +286,12 @@ def evaluate_block(ctx, base, items, mfut, what_level):
             ctx.fail({'base': base, 'segs': [s.hex() for s in segs]}, '%s, base 1.%d: %s' % (what_level, base - 10, what), sig=None, expected=exp, actual=act)
         elif ctx.evaluations % 40009 == 11:
             ctx.sample({'case': {'base': base, 'segs': [s.hex() for s in segs]}, 'events': act})
+
+
+# streams on which parse() did not return (harness/framing.py: per-stream CPU-time limit). Each is reported as a concrete failing
+# input; after STUCK_MAX of them the rest of the parser level is abandoned (the verdict is a VIOLATION already).
+STUCK = {'n': 0}
+STUCK_MAX = 3
 
 
 class Pipeline:
@@ -308,6 +329,33 @@ def corpus_and_witnesses(ctx, P):
     for s in (b'\n#\xff4\nabcd\n##\n', b'garbage\n#3\nabc\n##\n', b'\n#3\nabc\n##\nX', b'\n#3\nabcX\n##\n'):
         items = [([s], {'level': 'witness'}), ([s[i:i + 1] for i in range(len(s))], {'level': 'witness'})]
         P.submit(11, items, 'witness')
+
+
+def zero_size_chunk_headers(ctx, P):
+    """Chunk headers whose size is zero (`\\n#0\\n`, `\\n#00\\n`, `\\n#000\\n`): not a chunk by RFC 6242 (chunk-size = 1-9 then digits);
+    the library takes one as an empty chunk and goes on (model and oracle say the same) - what it must never do is stall or spin.
+    `\\n#0\\n` is a word of the bounded-exhaustive alphabet; here the header also stands at every position of real messages (before /
+    between / after chunks, before and after end-of-chunks, alone, repeated, cut at every offset and fed octet by octet), first."""
+    f = F()
+    msg = b'<rpc-reply xmlns="%s" message-id="7"><ok/></rpc-reply>' % f.NS.encode()
+    def ch(b): return b'\n#%d\n' % len(b) + b
+    items = []
+    for z in (b'\n#0\n', b'\n#00\n', b'\n#000\n'):
+        streams = [z, z + z, z + f.END11, z + ch(msg) + f.END11, ch(msg[:20]) + z + ch(msg[20:]) + f.END11, ch(msg) + z + f.END11,
+                   ch(msg) + f.END11 + z + ch(b'<after/>') + f.END11, ch(msg) + f.END11 + z, z + b'x', z[:-1], z[:-1] + b'x', b'\n#0x\n' + z,
+                   ch(b'a') + z + z + ch(b'b') + f.END11]
+        for s in streams:
+            items.append(([s], {'level': 'zero_size_header', 'segmentation': 'whole'}))
+            items.append(([s[i:i + 1] for i in range(len(s))], {'level': 'zero_size_header', 'segmentation': 'size1'}))
+            if len(s) <= 24:
+                for c in range(1, len(s)):
+                    items.append(([s[:c], s[c:]], {'level': 'zero_size_header', 'segmentation': 'single_all'}))
+            else:
+                k = s.find(z)
+                for c in range(max(1, k - 1), min(len(s), k + len(z) + 2)):
+                    items.append(([s[:c], s[c:]], {'level': 'zero_size_header', 'segmentation': 'single_near_header'}))
+    P.submit(11, items, 'zero-size chunk header')
+    P.submit(10, [([z + b'<a/>' + f.DELIM10], {'level': 'zero_size_header', 'segmentation': 'whole'}) for z in (b'\n#0\n', b'\n#00\n')], 'zero-size chunk header')
 
 
 def mutation_level(ctx, P):
@@ -527,6 +575,9 @@ def run_any_script(case):
     if case.get('scenario') == 'e':
         from harness import c14_hist
         return c14_hist.run_end_script(case)
+    if case.get('scenario') == 'l':
+        from harness import c14_hist
+        return c14_hist.run_listener_script(case)
     return run_script(case)
 
 
@@ -540,6 +591,8 @@ def session_level(ctx):
     nh = len(c14_hist.PROFILES) * (1 if quick else 10)
     plan = [('abc', i) for i in range(n)] + [('h', j) for j in range(nh)]
     cases = [('e', c['base'], c) for c in c14_hist.end_scripts(rng, quick, ctx.seed)]
+    # who receives what after the hello: real connect(), a second <hello>, listeners added and removed (scenario l)
+    cases += [('l', c['base'], c) for c in c14_hist.listener_scripts(rng, quick, ctx.seed)]
     for kind, i in plan:
         if kind == 'h':
             base = 10 if (i + ctx.seed + i // len(c14_hist.PROFILES)) % 2 == 0 else 11
@@ -567,6 +620,9 @@ def session_level(ctx):
             ctx.hist('session_profile', case['profile']); ctx.hist('session_end', 'ended' if not obs.get('connected', True) else 'alive')
             for ph in case['phases']:
                 for it in ph['items']: ctx.hist('session_hist_item', it[0])
+        elif scen == 'l':
+            ctx.hist('session_profile', case['profile'])
+            for st in case['steps']: ctx.hist('session_listener_step', st[0] if st[0] != 'hello2' else 'hello2:' + st[1])
         elif scen == 'e':
             ctx.hist('session_end_how', case['end']); ctx.hist('session_end_leftover', case['tail']); ctx.hist('session_end_shape', case['shape'])
             ctx.hist('session_pending', len(case['reqs']) - len(case['answered']))
@@ -600,10 +656,16 @@ def lts_session_clause(ctx):
 def run(ctx):
     t0 = time.time(); phase = {}
     P = Pipeline(ctx)
+    STUCK['n'] = 0
     corpus_and_witnesses(ctx, P)
+    zero_size_chunk_headers(ctx, P)
     mutation_level(ctx, P)
     complete = exhaustive_level(ctx, P)
     P.finish()
+    if STUCK['n']:
+        ctx.note('parse() did not return on %d stream(s) (each reported as a failing input)%s' % (
+            STUCK['n'], '; the rest of the parser level was abandoned' if STUCK['n'] >= STUCK_MAX else ''))
+        complete = complete and STUCK['n'] < STUCK_MAX
     phase['parser_level'] = round(time.time() - t0, 1); t0 = time.time()
     # the documented finite space (RULE (2)) was fully enumerated; the mutation grammar and the session level are samples
     ctx.exhaustive = bool(complete)
@@ -667,6 +729,9 @@ def replay(doc):
         ok, what, sig, obs = run_any_script(c)
         if c['scenario'] == 'h':
             print('case     : session history, profile %s, base 1.%d, phases %r' % (c['profile'], c['base'] - 10, c['phases']))
+        elif c['scenario'] == 'l':
+            print('case     : connect() to a server whose hello says session-id %s, profile %s, base 1.%d; then steps %r; then a sentinel message; end: %s'
+                  % (c['sid'], c['profile'], c['base'] - 10, c['steps'], c['end']))
         elif c['scenario'] == 'e':
             print('case     : end of session, profile %s, base 1.%d: requests (sync?) %r, answered %r, then an unfinished frame (%s, %s, leftover %s), then %s'
                   % (c['profile'], c['base'] - 10, c['reqs'], c['answered'], c['about'], c['shape'], c['tail'], c['end']))
